@@ -15,6 +15,9 @@ Inductive jv :=
   | JNull
   | JBool (b : bool)
   | JInt (z : Z)
+  (* a float, carried opaquely as its decimal token (what the writer printed); the number <-> text
+     conversion itself is not modelled *)
+  | JFloat (tok : list N)
   | JStr (s : list N)
   | JArr (l : list jv)
   | JObj (kv : list (list N * jv)).
@@ -43,6 +46,7 @@ Fixpoint ser (v : jv) : list N :=
   | JBool true => [116; 114; 117; 101]
   | JBool false => [102; 97; 108; 115; 101]
   | JInt z => show_int z
+  | JFloat tok => tok
   | JStr s => ser_str s
   | JArr l =>
       91 :: (fix elems (l : list jv) : list N :=
@@ -90,6 +94,28 @@ Definition pint (inp : list N) : option (jv * list N) :=
         | (Decimal.Nil, _) => None
         | (u, r') => Some (JInt (Z.of_int (Decimal.Pos u)), r')
         end
+  end.
+
+(* number tokens: the maximal run of number characters; an integer when it is `-?digit+`,
+   otherwise (a '.', an exponent) a float token kept as it is *)
+Definition is_numch (b : N) : bool :=
+  is_dig b || (b =? 45) || (b =? 43) || (b =? 46) || (b =? 101) || (b =? 69).
+Definition is_intch (b : N) : bool := is_dig b || (b =? 45).
+
+Fixpoint span_num (l : list N) : list N * list N :=
+  match l with
+  | [] => ([], [])
+  | b :: r => if is_numch b then let '(t, r') := span_num r in (b :: t, r') else ([], l)
+  end.
+
+Definition pnum (inp : list N) : option (jv * list N) :=
+  let '(tok, rest) := span_num inp in
+  match tok with
+  | [] => None
+  | _ :: _ =>
+      if forallb is_intch tok then
+        match pint tok with Some (v, []) => Some (v, rest) | _ => None end
+      else Some (JFloat tok, rest)
   end.
 
 Definition hexval (d : N) : option N :=
@@ -164,7 +190,7 @@ Fixpoint pval (fuel : nat) (inp : list N) {struct fuel} : option (jv * list N) :
                 if b2 =? 125 then Some (JObj [], r2)
                 else match pmembers f r with Some (kv, r') => Some (JObj kv, r') | None => None end
             end
-          else pint inp
+          else pnum inp
       end
   end
 (* value ("," value)* "]" *)
@@ -211,4 +237,15 @@ Definition de (text : list N) : option jv :=
   match pval (S (length text)) text with
   | Some (v, []) => Some v
   | _ => None
+  end.
+
+(* the value class of the round-trip theorem: float tokens are non-integer number tokens *)
+Definition float_tok_ok (tok : list N) : bool := forallb is_numch tok && negb (forallb is_intch tok).
+
+Fixpoint wf (v : jv) : bool :=
+  match v with
+  | JFloat tok => float_tok_ok tok
+  | JArr l => forallb wf l
+  | JObj kv => forallb (fun p => wf (snd p)) kv
+  | _ => true
   end.
